@@ -16,6 +16,7 @@ fn main() {
     let file = syn::parse_file(&src).expect("parse dialect/mod.rs");
     let mut fwd = vec![];
     let mut fwd_noid = vec![];
+    let mut fwd_prec = vec![];
     let mut flags = vec![];
     let mut names = vec![];
     for item in &file.items {
@@ -40,6 +41,15 @@ fn main() {
                     }
                     let body = quote! { #sig2 { self.0.#name(#(#args),*) } };
                     fwd.push(body.clone());
+                    // WrappedPrec: a user-defined dialect that publishes its own binding powers:
+                    // `prec_value` is perturbed, `get_next_precedence_default` is NOT forwarded (the
+                    // trait's default body runs against the perturbed table)
+                    if name == "prec_value" {
+                        let a1 = &args[0];
+                        fwd_prec.push(quote! { #sig2 { (self.1)(#a1, self.0.prec_value(#a1)) } });
+                    } else if name != "get_next_precedence_default" {
+                        fwd_prec.push(body.clone());
+                    }
                     if name != "dialect" {
                         fwd_noid.push(body);
                     }
@@ -74,6 +84,9 @@ fn main() {
         #[derive(Debug)]
         pub struct WrappedOwnId(pub Box<dyn Dialect>);
         impl Dialect for WrappedOwnId { #(#fwd_noid)* }
+        pub struct WrappedPrec(pub Box<dyn Dialect>, pub fn(Precedence, u8) -> u8);
+        impl std::fmt::Debug for WrappedPrec { fn fmt(&self, f: &mut std::fmt::Formatter) -> std::fmt::Result { write!(f, "WrappedPrec({:?})", self.0) } }
+        impl Dialect for WrappedPrec { #(#fwd_prec)* }
         pub const DIALECT_METHODS: &[&str] = &[#(#names),*];
     };
     std::fs::write(Path::new(&out).join("wrapper.rs"), wrapper.to_string()).unwrap();
